@@ -384,3 +384,12 @@ Theorem C08_fractional_lifetime_kept_alive :
   forall n c k, kept 2500 n c (beats n c 2200 k) 0 = true /\ kept 2000 n c (beats n c 2200 1) 0 = false.
 Proof. exact fractional_lifetime_kept. Qed.
 Print Assumptions C08_fractional_lifetime_kept_alive.
+
+(* "most recent SUCCESSFUL handshake", again: a phase-1 handshake message on a connection that was authenticated earlier proves
+   nothing (event AuthFail; covered by C08_lookup_current, whose `post` may contain any AuthFail).  Re-registering the location
+   for it (seeded C08-29) is refuted: the lookup returns to the connection the client has left *)
+Theorem C08_phase1_message_must_not_register :
+  find current_variant redis_backend (run current_variant redis_backend 300000 init (phase1_history false)) 1 7 = Found 2 20 /\
+  find current_variant redis_backend (run current_variant redis_backend 300000 init (phase1_history true)) 1 7 = Found 1 10.
+Proof. exact phase1_message_must_not_register. Qed.
+Print Assumptions C08_phase1_message_must_not_register.
